@@ -6,7 +6,7 @@ import gen
 PID = 'C12'
 RULE = ('each evaluation is one sequence of load / unload / failing-load (missing file, unsupported extension, duplicate id) / '
         'step / query / one-index-ahead query (tid^sig@1) operations over three generated traces with overlapping signal names and different lengths, explored '
-        'breadth-first (all sequences up to length 3 in quick, 4 in thorough, plus random longer ones up to 6) against a '
+        'breadth-first (all sequences up to length 3; in thorough also all of length 4 over the load/unload/step operations and 20000 sampled ones over all; plus random longer ones up to 6) against a '
         'dictionary-of-traces reference (oracle): after every operation loaded-traces, every tid^INDEX/TS/MAX-INDEX/signal/'
         'width/scoped reference, and unqualified names when exactly one trace is loaded; every command also runs on the '
         'extracted Coq model. distinct = distinct operation sequences; non-trivial = at least two traces loaded at some point')
@@ -14,7 +14,8 @@ RULE = ('each evaluation is one sequence of load / unload / failing-load (missin
 OPS = ['load a', 'load b', 'load c', 'load missing', 'load ext', 'unload a', 'unload b', 'step a', 'step all', 'step all 2',
        'loadas a b',      # another file under an id that may have been used before
        'ahead a', 'ahead b',   # a query one index ahead on one trace: no trace may have moved afterwards
-       'loadgen a', 'unload t0']   # a load without an id: the generated id t<number of loaded traces> may be taken already
+       'loadgen a', 'unload t0',
+       'stepm a b 3', 'stepm b a 2']   # a load without an id: the generated id t<number of loaded traces> may be taken already
 
 
 def make_traces(rng):
@@ -60,7 +61,22 @@ def make_case(seq, traces, cid):
     for op in seq:
         parts = op.split()
         traces = {t: traces0[src[t]] for t in loaded}
-        if parts[0] == 'loadgen':
+        if parts[0] == 'stepm':
+            # (step t1 t2 n): every listed trace steps on its own; the result says whether all of them could
+            ids, n = parts[1:3], int(parts[3])
+            if all(t in loaded for t in ids):
+                ok = True
+                for t in ids:
+                    if idx[t] + n <= traces[t][1]['n'] - 1:
+                        idx[t] += n
+                    else:
+                        ok = False
+                cmds.append(['try', ['evalstr', '111', f'(step {ids[0]} {ids[1]} {n})']])
+                expect.append('ok ' + lib.ser_py(ok))
+            else:
+                cmds.append(['try', ['evalstr', '111', '(+ 1 1)']])
+                expect.append('ok I2')
+        elif parts[0] == 'loadgen':
             file_ = parts[1]
             tid_ = 't%d' % len(loaded)
             cmds.append(['try', ['evalstr', '111', f'(load "{file_}.vcd")']])
@@ -178,16 +194,23 @@ def run(tier, seed, replay=None):
     rng = lib.rng_for(seed, PID)
     traces = make_traces(rng)
     seqs = []
-    maxlen = 3 if tier == 'quick' else 4
+    maxlen = 3
     for L in range(1, maxlen + 1):
         seqs += list(itertools.product(OPS, repeat=L))
+    if tier != 'quick':
+        # length 4 exhaustively over the operations of the property text (load/unload/failing load/step), sampled over the rest
+        core = [o for o in OPS if o.split()[0] in ('load', 'unload', 'step')]
+        seqs += list(itertools.product(core, repeat=4))
+        seqs += [tuple(rng.choice(OPS) for _ in range(4)) for _ in range(20000)]
+        rep.extra['exhaustive_length_4_over'] = core
     rep.extra['exhaustive_up_to_length'] = maxlen
     nrand = 300 if tier == 'quick' else 48000
     for _ in range(nrand):
-        L = rng.randrange(maxlen + 1, 7)
+        L = rng.randrange(4, 7)
         seqs.append(tuple(rng.choice(OPS) for _ in range(L)))
     # always run: a generated id that is taken already (after an unload the count of loaded traces names a live trace)
-    seqs += [('loadgen a', 'loadgen a', 'unload t0', 'loadgen a', 'step all'), ('loadgen a', 'loadgen a', 'unload t0', 'loadgen a', 'unload t1', 'step all'),
+    seqs += [('load a', 'load b', 'stepm a b 3', 'stepm b a 2'), ('load b', 'load a', 'stepm b a 2', 'stepm a b 3', 'step all'),
+             ('loadgen a', 'loadgen a', 'unload t0', 'loadgen a', 'step all'), ('loadgen a', 'loadgen a', 'unload t0', 'loadgen a', 'unload t1', 'step all'),
              ('load a', 'loadgen a', 'unload a', 'loadgen a'), ('loadgen a', 'load b', 'load c', 'unload t0', 'unload b', 'loadgen a'),
              ('loadgen a', 'loadgen a', 'loadgen a', 'unload t0', 'ahead a', 'loadgen a')]
     cases = [make_case(s, traces, i) for i, s in enumerate(seqs)]
